@@ -56,7 +56,8 @@ CONFIGS = {
         thorough=dict(Script="<- Script_HA_hyb", Hints="{FALSE, TRUE}", MaxAttrs=4, MaxUid=4, Pols="<- MCPolsFull",
                       Users='{"u1", "u2"}', EncIds='{"e1", "e2"}')),
     "Ids": dict(
-        ops=["KeyGen", "Refresh", "Clone", "RoundTrip", "Rekey"],
+        ops=["KeyGen", "Refresh", "Clone", "RoundTrip", "Rekey", "Save", "Restore", "DropUsk"],
+        ops_quick=["KeyGen", "Refresh", "RoundTrip", "Save", "Restore", "Rekey"],
         quick=dict(MaxSid=5, Users='{"u1", "u2"}', EncIds='{"e1"}', Pols="<- MCPolsSmall", MaxMpk=3,
                    Script="<- Script_A", Dims='{"D2"}'),
         thorough=dict(MaxSid=10, Users='{"u1", "u2", "u3"}', EncIds='{"e1"}', Pols="<- MCPolsSmall", MaxMpk=3)),
